@@ -14,7 +14,8 @@ GEN_TARGETS = ('Tables',)
 DRIVER_MAIN = 'Main/Pearson.lean'
 DRIVER_TARGETS = ['CopVerif.Driver.Pearson']
 ALWAYS_SEARCH = True
-RULE = ('[smallest legal tables: exactly 2 and 3 rows x 2-4 non-constant columns under every marginal configuration '
+RULE = ('[table-size sweep n = 1024, 1025, 2049, 4097, 1500 x 3 columns under Gaussian / Uniform marginals (fixed '
+        'probes in search)] [smallest legal tables: exactly 2 and 3 rows x 2-4 non-constant columns under every marginal configuration '
         '(fixed probes in search)] [input forms: every third tie table and 25% of search tables are given to fit as list of rows / Fortran / '
         'strided / read-only ndarray or a frame with Datetime / string / offset / shuffled row index (search also 1-d, '
         '(n,1), Series, single-column frame) and compared with the plain DataFrame / ndarray of the same values; object '
@@ -1296,6 +1297,20 @@ def storage_cause_probes():
     ]
 
 
+def size_probes():
+    """table-size sweep around block boundaries (n = 1024, 1024k + 1, 1500), 3 correlated columns, cheap marginals:
+    every ROW takes part in the Pearson correlation of the clipped normal scores."""
+    out = []
+    for q, n in enumerate((1024, 1025, 2049, 4097, 1500)):
+        r = np.random.RandomState(700 + n)
+        a = r.randn(n)
+        b = 0.6 * a + 0.8 * r.randn(n)
+        c = r.rand(n) + 0.3 * a
+        spec = ['class', 'GaussianUnivariate'] if q % 2 == 0 else ['class', 'UniformUnivariate']
+        out.append((['a', 'b', 'c'], [10 + 2 * a, b, 100 * c], spec, [f'probe:size:{n}-rows']))
+    return out
+
+
 def tiny_probes():
     """the smallest legal tables: exactly 2 and 3 rows, 2-4 NON-constant columns, every marginal configuration
     (a column with two distinct values is non-constant: unit diagonal; 2 rows: every correlation is +-1)."""
@@ -1422,7 +1437,7 @@ def search(ctx, deep):
     ndefault = 0
     seen_cls = set()
     noted, max_native_dev = False, 0.0
-    probes = fixed_probes() + history_probes() + dtype_probes() + form_probes() + tiny_probes()
+    probes = fixed_probes() + history_probes() + dtype_probes() + form_probes() + tiny_probes() + size_probes()
     for t in range(len(probes) + ntables):
         hist = None
         if t < len(probes):
